@@ -105,6 +105,11 @@ SeedImp == {Node("IMPERATIVE", <<La, It(La, d)>>) : d \in Doms}
       \cup {Node("IMPERATIVE", <<Node("TUPLE", <<La, Lb>>), It(La, d), It(Lb, d2), p>>) : d \in {Glob("X1"), Glob("C1"), Glob("S2")}, d2 \in {Glob("X1"), Glob("C1"), La}, p \in PairPreds}
       \cup {Node("IMPERATIVE", <<v, It(TupAB, d), p>>) : v \in {La, Lb, Node("TUPLE", <<Lb, La>>)}, d \in {Glob("S1"), X1xX1, X1xC1, Glob("X1")}, p \in PairPreds}
       \cup {Node("IMPERATIVE", <<La, It(La, Glob("X1")), It(La, Glob("X1"))>>), Node("IMPERATIVE", <<Lb, It(La, Glob("X1"))>>)}
+      \* an inner iteration whose domain depends on the outer variable through an assigned local (and an assignment after it)
+      \cup {Node("IMPERATIVE", <<Node("TUPLE", <<La, Lc>>), It(La, d), As(Lb, x), It(Lc, y)>>) :
+               d \in {Glob("X1"), Glob("S2")}, x \in {Node("ENUM", <<La>>), La, Glob("X1")}, y \in {Lb, Glob("X1")}}
+      \cup {Node("IMPERATIVE", <<Node("TUPLE", <<La, Lc>>), It(La, Glob("X1")), As(Lb, Node("ENUM", <<La>>)), It(Lc, Lb), Node("EQUAL", <<Lc, La>>)>>),
+            Node("IMPERATIVE", <<Node("TUPLE", <<La, Lb, Lc>>), It(La, Glob("X1")), It(Lb, Glob("X1")), As(Lc, Node("ENUM", <<La, Lb>>))>>)}
 SeedBind == {Node(q, <<TupAB, d, p>>) : q \in Quant \cup {"DECLARATIVE"}, d \in Doms, p \in PairPreds}
        \cup {Node(q, <<EnAB, d, p>>) : q \in Quant, d \in Doms, p \in PairPreds}
        \cup {Node(q, <<La, d, Node("EXISTS", <<La, d, Node("EQUAL", <<La, La>>)>>)>>) : q \in Quant, d \in {Glob("X1")}}
@@ -202,7 +207,14 @@ SeedEnum3 == {Node("ENUM", <<x, y, z>>) : x \in E3, y \in E3, z \in E3} \cup {No
 SeedPr == {Idx(o, ix, <<x>>) : o \in {"BIGPR"}, ix \in {<<1, 1>>, <<2, 1>>, <<2, 1, 2>>, <<1, 1, 1>>, <<2, 2>>}, x \in {Glob("S1"), X1xX1, X1xC1, Node("DECART", <<Glob("C1"), Glob("X1")>>)}}
           \cup {Node("EQUAL", <<Idx("BIGPR", <<1, 1>>, <<X1xC1>>), Node("DECART", <<Glob("X1"), Glob("X1")>>)>>),
                 Node("IN", <<Node("TUPLE", <<La, Lb>>), Idx("BIGPR", <<1, 1>>, <<X1xX1>>)>>)}
-Seeds == UNION {SeedPr, SeedEnum3, SeedBindMix, SeedFilter, SeedRec, SeedImp, SeedBind, SeedCall, SeedScope, SeedAxiom, SeedLazy, SeedNested, SeedNested2, SeedSibling, SeedFunc}
+\* arithmetic at and beyond the 32-bit range of stored integers
+BigInts == {0, 1, 46340, 46341, 65536, 2147483647}
+SeedArith == {Node(o, <<IntLit(a), IntLit(b)>>) : o \in Arith, a \in BigInts, b \in BigInts}
+             \cup {Node("EQUAL", <<Node("MULTIPLY", <<IntLit(65536), IntLit(65536)>>), IntLit(0)>>),
+                   Node("GREATER", <<Node("PLUS", <<IntLit(2147483647), Node("CARD", <<Glob("X1")>>)>>), IntLit(0)>>),
+                   Node("MINUS", <<Node("MINUS", <<IntLit(0), IntLit(2147483647)>>), IntLit(2)>>),
+                   Node("MULTIPLY", <<Node("MINUS", <<IntLit(0), IntLit(65536)>>), IntLit(65536)>>)}
+Seeds == UNION {SeedArith, SeedPr, SeedEnum3, SeedBindMix, SeedFilter, SeedRec, SeedImp, SeedBind, SeedCall, SeedScope, SeedAxiom, SeedLazy, SeedNested, SeedNested2, SeedSibling, SeedFunc}
 
 \* value classes of the context: sets and structures with data are values, a function has the class of its body
 GC0 == [n \in {"X1", "C1", "S1", "S2", "A1"} |-> "value"]
